@@ -115,6 +115,8 @@ def run(rep, idx, tier):
     rep.require("C04.5", 2)
     rep.require("C04.7", 3)
     rep.require("C04.8", 3)
+    rep.require("C04.9", 2)
+    glue.reset_discipline(rep, "C04.9", idx, ["csr/bus:Multiplexer", "csr/bus:Multiplexer._Shadow.Chunk"])
     c = get_ctx(idx, "csr:Multiplexer.elaborate")
     rep.analysed(c.fi.site)
     rep.count("drivers", len(c.t.drivers))
